@@ -18,6 +18,7 @@ def run(chk, facts, tier):
     chk.rule('probe-same-credentials', 'handle_prepair_write_request probes with check_write(<conn>.client_configurations(), <conn>.security_attributes(), this) of its own connection parameter, '
              'like handle_write_request / handle_execute_write_request build their write arguments', floor=3)
     chk.rule('prepare-defers', 'Prepare Write: the only attribute access is the zero-length probe; the payload is copied into the queue element returned by allocate_from_write_queue (null -> Prepare Queue Full)', floor=1)
+    chk.rule('execute-writes-own-attribute', 'handle_execute_write_request applies every queued element to the attribute named by the handle stored in that element (looked up inside the loop)', floor=1)
     chk.rule('execute-frees-on-every-exit', 'handle_execute_write_request: every exit behind the PDU check releases the queue (write_queue_guard in scope or free_write_queue on the path)', floor=1)
     chk.rule('release-only-after-pdu-check', 'handle_execute_write_request: the write_queue_guard and every free_write_queue are control dependent on the passed PDU check (in_size == 2, flag 0 or 1): the queue is released on execute, cancel or disconnect only', floor=1)
     chk.rule('single-owner', 'allocate_from_write_queue refuses when another client owns the queue and claims the queue only on the path that queues an element; first_write_queue_element yields only to the owner; free_write_queue only for the owner', floor=4)
@@ -84,7 +85,47 @@ def run(chk, facts, tier):
         if not end_free:
             bad.append(fn.body)
         loop = fn.body.find(lambda n: n.k == 'ForStmt')
-        order_ok = len(loop) == 1 and any(c.cn == 'first_write_queue_element' for c in loop[0].child('init').calls()) and any(c.cn == 'next_write_queue_element' for c in loop[0].child('inc').calls())
+        def _calls(n):
+            return n.calls() if n is not None else []
+        first_in_init = len(loop) == 1 and any(c.cn == 'first_write_queue_element' for c in _calls(loop[0].child('init')))
+        if len(loop) == 1 and not first_in_init:
+            # `auto queue = first_write_queue_element(..); for ( ; queue.first; queue = next.. )`: the loop variable initialised in front of the loop
+            lv = [d for d in fn.body.find(lambda n: n.k == 'VarDecl' and n.c) if strip_casts(d.c[0]).is_call('first_write_queue_element')]
+            first_in_init = len(lv) == 1 and mentions(loop[0].child('cond'), lv[0].n) and precedes(fn, lv[0].c[0], loop[0].child('cond')) and not [st for tgt, op, val, st in stores(fn.body) if is_name(tgt, lv[0].n) and st.l < loop[0].l]
+        order_ok = len(loop) == 1 and first_in_init and any(c.cn == 'next_write_queue_element' for c in _calls(loop[0].child('inc')))
+        # every queued element is written to the attribute its own handle names
+        own_ok, own_why = False, 'write access of the queued elements not found'
+        if len(loop) == 1:
+            def inside(n):
+                while n is not None:
+                    if n is loop[0].child('body'):
+                        return True
+                    n = n.parent
+                return False
+            acc = [c for c in loop[0].calls('access') if base_object(c) is not None and strip_casts(base_object(c)).is_call('attribute_at')]
+            if len(acc) == 1:
+                i_node = strip_casts(strip_casts(base_object(acc[0])).args()[0])
+                chain, cur, per_element = [], i_node, True
+                for _ in range(6):
+                    if cur is None or isinstance(cur, int):
+                        break
+                    cur = strip_casts(cur)
+                    if cur.k == 'DeclRefExpr' and cur.d.get('local'):
+                        ds = fn.body.find(lambda n: n.k == 'VarDecl' and n.n == cur.n and n.c)
+                        if len(ds) != 1:
+                            break
+                        per_element = per_element and inside(ds[0])
+                        cur = ds[0].c[0]
+                        continue
+                    if cur.is_call('index_by_handle') or cur.is_call('read_handle'):
+                        chain.append(cur.cn or cur.callee().n)
+                        cur = cur.args()[0] if cur.args() else None
+                        continue
+                    break
+                elem = cur is not None and not isinstance(cur, int) and strip_casts(cur).k == 'MemberExpr' and strip_casts(cur).n == 'first'
+                own_ok = chain == ['index_by_handle', 'read_handle'] and elem and per_element and inside(acc[0])
+                own_why = 'the attribute a queued write is applied to is not index_by_handle(read_handle(<this element>)) evaluated for every element: the elements of a queue that holds writes to several attributes all go to one of them'
+        chk.instance('execute-writes-own-attribute', fn, 'each queued element -> attribute_at(index_by_handle(read_handle(element)))', own_ok, '' if own_ok else own_why, key='own attribute')
         flag_ok = any(is_name(l, 'execute_flag') and op == '!=' for l, op, r in guard_atoms(fn, loop[0].child('cond'))) if loop else False
         ok = not bad and order_ok and flag_ok
         chk.instance('execute-frees-on-every-exit', fn, 'queue released on %d exits; elements applied first..next under execute_flag' % (len(fn.returns()) + 1), ok,
